@@ -180,7 +180,7 @@ def execute(spec):
     except csv.Error as e:
         # the lexer model (Serif.CsvLex) must reject the text as well; what read_csv does with it is not judged
         return {"fam": "lex", "case": {"lines": lines, "delim": spec["delim"], "src": spec["src"], "has_header": bool(spec["hh"]),
-                                       "records": []}, "impl": {"lexerr": True}}
+                                       "records": [], "text": text}, "impl": {"lexerr": True}}
     finally:
         f.close()
     I = Interner()
@@ -201,7 +201,7 @@ def execute(spec):
         return {"t": t, "b": (not t) or t.strip() == "", "i": i, "f": fl, "s": [sw[0], sw[2]]}
 
     case = {"has_header": bool(spec["hh"]), "src": spec["src"], "records": [[cell(t) for t in rec] for rec in lex],
-            "lines": lines, "delim": spec["delim"]}
+            "lines": lines, "delim": spec["delim"], "text": text}
     arg = mk_arg()
     try:
         t = read_csv(arg, delimiter=spec["delim"], has_header=spec["hh"], **kw)
